@@ -18,7 +18,8 @@ MANIFEST = dict(
           "recording stubs for the 28 handlers; obligations: a handler is reached (no NotImplementedError), it is the handler whose contract is 'a cap b' for these types, the operands arrive in its parameter order, "
           "its result is passed through, None in either position gives None. Symmetry then follows from the handlers' extensional contracts. The result kinds each handler's contract allows are checked against the table parsed "
           "from docs/source/example_operation.rst on every run, and every composition handler is proved (SET world, all operands) to return only those kinds and never to reach a 'Bug detected' branch."),
-    note=("The type-pair space is finite and enumerated completely. Result types and 'Bug detected'-freedom of the leaf handlers that build results from hash sets (line/plane/segment/half-line vs polyhedron, coplanar polygon cases, "
+    note=("A labelled bounded stand-in (catalogue operands for all 49 ordered pairs, both orders and the method form against the exact oracle) cross-checks symmetry and result types on CPython; it is not counted as proved. "
+          "The type-pair space is finite and enumerated completely. Result types and 'Bug detected'-freedom of the leaf handlers that build results from hash sets (line/plane/segment/half-line vs polyhedron, coplanar polygon cases, "
           "polyhedron-polyhedron) rest on the bounded stand-ins of C02/C03, not on a proof; they are listed under functions_bounded_only."),
     design_ref="DESIGN.md section 9 (C04), section 3.3",
 )
@@ -81,3 +82,21 @@ def groups(tier):
         gs.append(set_group(name, flags=dict(lines_differ=True), suffix=", carriers differ"))
     gs += C02.set_groups() + C03.set_groups()
     return gs
+
+
+def bounded(tier, seed):
+    """all 49 ordered type pairs on catalogue operands: defined, both orders and the method form agree with the exact common point set, documented type"""
+    from g3dvc import bounded as B
+    per, nb, pb, nc = (24, 4, 24, 150) if tier == "quick" else (100, 12, 60, 600)
+    out = [("flat-flat, all 25 ordered pairs", B.flat_flat, (seed, per), 1800)]
+    for body in ("Polygon", "Polyhedron"):
+        for kind in ("Point", "Line", "HalfLine", "Segment", "Plane"):
+            out.append(("%s vs %s (both orders, method form)" % (kind, body), B.flat_convex, (seed, kind, body, nb, pb), 3000))
+    for fam in ("pp", "pg_ph", "ph_ph"):
+        out.append(("convex pairs %s (both orders, method form)" % fam, B.convex_convex, (seed, fam, nc), 3000))
+    return out
+
+
+def replay_case(case):
+    from g3dvc import bounded as B
+    return B.replay_intersection(case)
